@@ -307,6 +307,9 @@ func (o *ou1) definitelyFails(fn *ssa.Function, r *ssa.Return) bool {
 		if n == "errors.New" || n == "fmt.Errorf" || strings.HasSuffix(n, ".GoError") || strings.HasSuffix(n, "prunedErr") {
 			continue
 		}
+		if h := cl.Call.StaticCallee(); h != nil && o.c.InModule(h) && alwaysFails(h, 0) {
+			continue
+		}
 		if mustPassEdges(fn, r.Block(), nonNilErrEdges(fn, cl)) {
 			continue
 		}
